@@ -86,5 +86,18 @@ P7 == {WithField(PCase("P7", <<F("o", DeclBaseLate(ns), 0, 1)>>, <<LateV>>, <<De
       \cup {WithField(PCase("P7", <<F("a", Arr(DeclBaseLate(ns)), 0, 1)>>, <<SeqV(<<ObjV("Base", <<Leaf("5"), Leaf("hello")>>), LateV>>)>>,
                               <<Arr(DeclBaseLate(ns))>>, <<SeqV(<<LateV>>)>>, TRUE),
                  "prime", <<SeqV(<<ObjV("Mid", <<Leaf("5"), Leaf("hello"), Leaf("true")>>)>>)>>) : ns \in {"tns"}}
-PolyCases == P1 \cup P2 \cup P3 \cup P4 \cup P5 \cup P6 \cup P7
+\* P8 (XML family): subclasses that declare an XML ATTRIBUTE member whose name is the local name of the type marker (`type`),
+\* textual (Tagged) and numeric (Coded), set and unset: the marker is the attribute {xsi}type - an attribute called `type` in no
+\* namespace is another attribute, and an unset member stays unset
+PB8 == Obj("Base8", "tns", <<F("b1", Prim("Integer"), 0, 1)>>)
+Tagged == Sub("Tagged", "tns", <<F("type", Attr(Prim("Unicode")), 0, 1), F("t", Prim("Unicode"), 0, 1)>>, PB8)
+Coded  == Sub("Coded", "tns", <<F("type", Attr(Prim("Integer")), 0, 1), F("id", Attr(Prim("Unicode")), 0, 1)>>, PB8)
+Decl8 == [PB8 EXCEPT !.subs = <<Tagged, Coded>>]
+Vals8 == {ObjV("Tagged", <<Leaf("5"), Nil, Leaf("hello")>>), ObjV("Tagged", <<Leaf("5"), Leaf("kind"), Nil>>), ObjV("Tagged", <<Nil, Nil, Nil>>),
+          ObjV("Coded", <<Leaf("5"), Leaf("7"), Leaf("k1")>>), ObjV("Coded", <<Nil, Nil, Leaf("k1")>>), ObjV("Base8", <<Leaf("5")>>)}
+P8 == {PCase("P8", <<F("o", Decl8, 0, 1)>>, <<v>>, <<Decl8>>, <<v>>, TRUE) : v \in Vals8}
+      \cup {PCase("P8", <<F("a", Arr(Decl8), 0, 1)>>, <<SeqV(m)>>, <<Arr(Decl8)>>, <<SeqV(m)>>, TRUE) :
+               m \in {<<ObjV("Tagged", <<Leaf("5"), Nil, Leaf("hello")>>), ObjV("Coded", <<Nil, Nil, Leaf("k1")>>), ObjV("Base8", <<Leaf("5")>>)>>,
+                       <<ObjV("Coded", <<Leaf("5"), Leaf("7"), Leaf("k1")>>), ObjV("Tagged", <<Nil, Leaf("kind"), Nil>>)>>}}
+PolyCases == P1 \cup P2 \cup P3 \cup P4 \cup P5 \cup P6 \cup P7 \cup P8
 =============================================================================
